@@ -130,6 +130,20 @@ CHECKS["C20"] = dict(
           "against the C20 formulas (Notifier_Trace.tla)."),
     technique="TLA+ Notifier.tla model-checked by TLC over all chunkings; TLC-simulated chunkings replayed on the real notifier classes; look-ups validated by TLC")
 
+CHECKS["C03"] = dict(
+    cat="exploration", ref="DESIGN.md §5 C03",
+    note=("Trusted: the authenticity oracle (hand-written canonical serialisation + hashlib + coincurve BIP-340 verification, "
+          "independent of aionostr/rapidjson except that control characters follow the relay's \\u00XX convention and are not used "
+          "in C03 universes). The variant classes are a sample of the input language: 18 named mutations (each field changed without "
+          "re-signing, re-signed with a wrong / upper-case id, float / string created_at, bool kind, forged / transplanted / short "
+          "delegation tags), singly and in pairs."),
+    text=("Store.tla's C03_OnlyAuthentic (store, writer queue and fan-out history contain only events the oracle calls authentic) and "
+          "Relay.tla's C03_OnlyAuthenticAccepted are model-checked, and evaluated by TLC on the traces of every forged variant "
+          "submitted through add_event (bulk-load path) on both backends and through EVENT frames of web.start_client with a "
+          "listening subscriber."),
+    technique="TLA+ Store.tla / Relay.tla invariants evaluated by TLC on recorded submissions of forged variants (independent authenticity oracle)")
+CHECKS["C03"]["level_override"] = "exploration"
+
 NOT_YET = {}
 
 
